@@ -69,6 +69,28 @@ pub const TARGETED: [Targeted; 8] = [
     },
 ];
 
+/// small schemas in which a NAME is defined twice (fix 8cdbacf: `check_unique_names`), or a built-in directive is
+/// re-declared (allowed): the verdict of `check` must be the same for every order of the definitions — rejected in
+/// every order for a repeated name (before the fix 'directive-twice' passed in one order and failed in the other, and
+/// the cross-kind cases passed in every order), accepted in every order for the re-declarations.
+pub struct DupNames {
+    pub name: &'static str,
+    pub defs: &'static [&'static str],
+    pub expect_rejected: bool,
+}
+
+pub const DUP_NAMES: [DupNames; 9] = [
+    DupNames { name: "directive-twice", defs: &["directive @d on SCALAR", "directive @d on OBJECT", "scalar X @d", "type Query { x: X }"], expect_rejected: true },
+    DupNames { name: "directive-twice-verbatim", defs: &["directive @d on SCALAR", "directive @d on SCALAR", "scalar X @d", "type Query { x: X }"], expect_rejected: true },
+    DupNames { name: "directive-thrice", defs: &["directive @d on SCALAR", "directive @d on OBJECT", "directive @d on SCALAR | OBJECT", "scalar X @d", "type Query @d { x: X }"], expect_rejected: true },
+    DupNames { name: "type-object+input", defs: &["type A { x: Int }", "input A { y: Int }", "type Query { a: A }"], expect_rejected: true },
+    DupNames { name: "type-scalar+object", defs: &["scalar A", "type A { f: B }", "scalar B", "input I { x: A }", "type Query { i: Int }"], expect_rejected: true },
+    DupNames { name: "type-interface+union", defs: &["interface N { id: ID }", "union N = Query", "type Query implements N { id: ID }"], expect_rejected: true },
+    DupNames { name: "builtin-scalar-name", defs: &["enum String { A }", "input Int { x: Boolean }", "type Query { a: Boolean }"], expect_rejected: true },
+    DupNames { name: "redeclare-builtin-directive", defs: &["directive @deprecated(reason: String) on OBJECT | FIELD_DEFINITION", "type Query @deprecated { a: Int @deprecated(reason: \"x\") }", "scalar S"], expect_rejected: false },
+    DupNames { name: "redeclare-builtin-verbatim", defs: &["directive @skip(if: Boolean!) on FIELD | FRAGMENT_SPREAD | INLINE_FRAGMENT", "directive @specifiedBy(url: String!) on SCALAR", "scalar S @specifiedBy(url: \"u\")", "type Query { s: S }"], expect_rejected: false },
+];
+
 /// all permutations of 0..n (Heap's algorithm), identity first
 pub fn all_orders(n: usize) -> Vec<Vec<usize>> {
     fn heap(k: usize, a: &mut Vec<usize>, out: &mut Vec<Vec<usize>>) {
